@@ -251,6 +251,57 @@ def merge3(base, ann, cur, dropped=None, coarse=False):
     return out
 
 
+
+def prune_dangling_ghost(ann, merged):
+    """ghost variables (`let ghost [mut] X`) declared in the annotated text but no longer in the merged text (their declaration was an
+    annotation of code that is gone): `proof { .. }` blocks and `assert(..);` statements that still mention them are hints about code
+    that is gone too and are removed.  Only ghost syntax is removed, so the erasure check is unaffected.  -> (tokens, n removed)"""
+    def decls(toks):
+        d = set()
+        for k in range(len(toks) - 2):
+            if toks[k] == "let" and toks[k + 1] == "ghost":
+                d.add(toks[k + 3] if toks[k + 2] == "mut" else toks[k + 2])
+        return d
+    missing = decls(ann) - decls(merged)
+    if not missing:
+        return merged, 0
+    out, i, n = [], 0, 0
+    while i < len(merged):
+        t = merged[i]
+        if t == "proof" and i + 1 < len(merged) and merged[i + 1] == "{":
+            e = lex.match_close(merged, i + 1)
+            if any(x in missing for x in merged[i + 2:e]):
+                i = e + 1
+                n += 1
+                continue
+        if t == "assert" and i + 1 < len(merged) and merged[i + 1] == "(":
+            e = lex.match_close(merged, i + 1)
+            j = e + 1
+            if j < len(merged) and merged[j] == "by":
+                while j < len(merged) and merged[j] != "{":
+                    j += 1
+                j = lex.match_close(merged, j) + 1
+            if j < len(merged) and merged[j] == ";":
+                j += 1
+            if any(x in missing for x in merged[i:j]):
+                i = j
+                n += 1
+                continue
+        out.append(t)
+        i += 1
+    if n:
+        # a ghost-only `else { proof { .. } }` whose proof block went leaves `else { }` behind: remove it (the erasure check still
+        # guards: a real empty else of /repo would make it fail)
+        o2, k = [], 0
+        while k < len(out):
+            if out[k:k + 3] == ["else", "{", "}"]:
+                k += 3
+                continue
+            o2.append(out[k])
+            k += 1
+        out = o2
+    return out, n
+
 # ---------------------------------------------------------------------------------------------
 # ghost-argument completion: calls that moved or were added by a change carry no ghost arguments.
 # The annotated template tells which callee takes which trailing `Tracked(..)` / `Ghost(..)` arguments;
